@@ -1,8 +1,8 @@
 (* Extraction of the C12 models of query_rw_info (x86 and AArch64) together with the tables generated from the working tree
    (ExtrOcamlBasic only; numbers stay Coq's positive/N/Z datatypes). *)
 From Coq Require Extraction ExtrOcamlBasic.
-From Verif Require Import RwInfo.RwModel RwInfo.A64RwModel.
+From Verif Require Import RwInfo.RwModel RwInfo.FeatModel RwInfo.A64RwModel.
 From VerifGen Require Import C12_X86RwTables C12_A64Tables.
 Extraction Blacklist List String Int.
 Extraction "rwinfo.ml" RwModel.query_rw_info RwModel.reg_group RwModel.reg_size RwModel.optZMask RwModel.optER RwModel.kMovOp
-  C12_X86RwTables.x86_tables A64RwModel.a64_query_rw_info C12_A64Tables.a64_tabs.
+  C12_X86RwTables.x86_tables FeatModel.query_features C12_X86RwTables.x86_feat_consts A64RwModel.a64_query_rw_info C12_A64Tables.a64_tabs.
